@@ -41,13 +41,13 @@ func TestMain(m *testing.M) {
 }
 
 type obsT struct {
-	out       *hsink.Sink
-	sinks     *hsink.Sinks
-	src       *hsink.ChunkReader
-	returned  bool
-	atReturn  []byte
-	display   bool
-	record    bool
+	out      *hsink.Sink
+	sinks    *hsink.Sinks
+	src      *hsink.ChunkReader
+	returned bool
+	atReturn []byte
+	display  bool
+	record   bool
 }
 
 // expected computes, by sequential framing with the implementation itself,
@@ -199,9 +199,9 @@ func smallStreams() (map[string][]byte, []string) {
 
 func propC10() *harness.Prop {
 	return &harness.Prop{
-		ID: "C10",
-		Rule: "rtcmfilter.HandleMessages (the shipped function, in-package harness) under the controlled scheduler with harness-owned stdout, record and display writers whose every Write is a scheduling point. Schedule dimension: 9 small streams x {display,record} in {0,1}^2 x every interleaving of main, reader, framing, fan-out and 1-3 writer goroutines and every source chunking (state-key pruning; deviation bound 1/2 where the unbounded pass is cut). Input dimension: every sequence of <=2 (quick) / <=3 (thorough) segments from a 19-entry menu (valid frames, NMEA, UBX, junk with 0xD3, lone D3, bad leaders, truncations, corrupted frames) with display and record on, default schedule. plus a stalled-writer scenario (twelve distinct frames, the output writer blocks in its first Write until a timer thread lets it go, by default as late as possible). Oracle at quiescence: stdout == concatenation of the valid frames of the sequential framing, record identical, display text == one String() entry per delivered message. Non-trivial = distinct schedule trace",
-		Assumptions: []string{"dailylogger.New is redirected at build time to an in-memory sink (file naming and rotation belong to the go-tools dependency)", "which segments are 'valid frames as delimited by the framing rules' is taken from the implementation's own sequential framing filtered by the independent IsFrame predicate (differential oracle), as the statement defines", "judged at quiescence; whether the output is complete when the call returns is C11"},
+		ID:             "C10",
+		Rule:           "rtcmfilter.HandleMessages (the shipped function, in-package harness) under the controlled scheduler with harness-owned stdout, record and display writers whose every Write is a scheduling point. Schedule dimension: 9 small streams x {display,record} in {0,1}^2 x every interleaving of main, reader, framing, fan-out and 1-3 writer goroutines and every source chunking (state-key pruning; deviation bound 1/2 where the unbounded pass is cut). Input dimension: every sequence of <=2 (quick) / <=3 (thorough) segments from a 19-entry menu (valid frames, NMEA, UBX, junk with 0xD3, lone D3, bad leaders, truncations, corrupted frames) with display and record on, default schedule. plus a stalled-writer scenario (twelve distinct frames, the output writer blocks in its first Write until a timer thread lets it go, by default as late as possible). Oracle at quiescence: stdout == concatenation of the valid frames of the sequential framing, record identical, display text == one String() entry per delivered message. Non-trivial = distinct schedule trace",
+		Assumptions:    []string{"dailylogger.New is redirected at build time to an in-memory sink (file naming and rotation belong to the go-tools dependency)", "which segments are 'valid frames as delimited by the framing rules' is taken from the implementation's own sequential framing filtered by the independent IsFrame predicate (differential oracle), as the statement defines", "judged at quiescence; whether the output is complete when the call returns is C11"},
 		Scenarios:      scenariosC10,
 		QuickBudget:    60 * time.Second,
 		ThoroughBudget: 10 * time.Minute,
@@ -259,6 +259,11 @@ func scenariosC10(tier string) []*mcrt.Scenario {
 			}
 		}
 	}
+	for _, n := range []int{4095, 4096, 4097, 8193} {
+		bs := bigStream(n)
+		scs = append(scs, &mcrt.Scenario{Name: fmt.Sprintf("input=%dB default-schedule", n), DefaultOnly: true, Horizon: 4000000,
+			Body: body(bs, false, true, false, []int{0}), Check: checkC10(bs)})
+	}
 	// a writer that stalls while input keeps flowing: twelve distinct frames
 	var many []byte
 	for i := 0; i < 12; i++ {
@@ -270,6 +275,20 @@ func scenariosC10(tier string) []*mcrt.Scenario {
 			Body: bodyG(many, false, rcd, false, []int{0}, true), Check: checkC10(many)})
 	}
 	return scs
+}
+
+// bigStream builds n bytes of valid frames (padded with text) - inputs around
+// the 4096-byte buffer of bufio.Reader.
+func bigStream(n int) []byte {
+	var b []byte
+	fr := ref.TypedFrame(1077, 22, nil)
+	for len(b)+len(fr) <= n {
+		b = append(b, fr...)
+	}
+	for len(b) < n {
+		b = append(b, '$')
+	}
+	return b
 }
 
 type seg struct {
@@ -298,9 +317,9 @@ func inputMenu() []seg {
 
 func propC11() *harness.Prop {
 	return &harness.Prop{
-		ID: "C11",
-		Rule: "the shipped HandleMessages of rtcmfilter and of displayrtcm3 (in-package harnesses) under the controlled scheduler; the output writer's Write is a scheduling point (a slow writer is a writer goroutine that is not scheduled) and in half the scenarios each Write happens in two steps; streams with 1, 2 and 3 messages x optional logs on/off x all interleavings (state-key pruning) and deviation bounds 0..2. Oracle evaluated at the instant the call returns on the calling thread: the writer holds the complete expected output. Non-trivial = distinct schedule trace",
-		Assumptions: []string{"only the writer passed to the entry point is judged", "expected output = what the implementation produces for the same bytes when framed sequentially (rtcmfilter: valid frames; displayrtcm3: heading + one String() per message)"},
+		ID:             "C11",
+		Rule:           "the shipped HandleMessages of rtcmfilter and of displayrtcm3 (in-package harnesses) under the controlled scheduler; the output writer's Write is a scheduling point (a slow writer is a writer goroutine that is not scheduled) and in half the scenarios each Write happens in two steps; streams with 1, 2 and 3 messages x optional logs on/off x all interleavings (state-key pruning) and deviation bounds 0..2. Oracle evaluated at the instant the call returns on the calling thread: the writer holds the complete expected output. Non-trivial = distinct schedule trace",
+		Assumptions:    []string{"only the writer passed to the entry point is judged", "expected output = what the implementation produces for the same bytes when framed sequentially (rtcmfilter: valid frames; displayrtcm3: heading + one String() per message)"},
 		Scenarios:      scenariosC11,
 		QuickBudget:    60 * time.Second,
 		ThoroughBudget: 10 * time.Minute,
@@ -340,6 +359,26 @@ func scenariosC11(tier string) []*mcrt.Scenario {
 				})
 			}
 		}
+	}
+	for _, n := range []int{4096, 4097} {
+		bs := bigStream(n)
+		wantB, _, _, faultB := expected(bs)
+		scs = append(scs, &mcrt.Scenario{Name: fmt.Sprintf("rtcmfilter input=%dB default-schedule", n), DefaultOnly: true, Horizon: 4000000,
+			Body: body(bs, false, false, false, []int{0}),
+			Check: func(x *mcrt.X) *mcrt.Failure {
+				if faultB != "" {
+					return &mcrt.Failure{Kind: "sequential-framing-failed", Detail: faultB}
+				}
+				if f := basic(x); f != nil {
+					return f
+				}
+				obs := x.Data.(*obsT)
+				if !bytes.Equal(obs.atReturn, wantB) {
+					return &mcrt.Failure{Kind: "app=rtcmfilter returned-before-writer-finished", Detail: fmt.Sprintf("%d of %d output bytes written when HandleMessages returned (%d-byte input)", len(obs.atReturn), len(wantB), len(bs))}
+				}
+				harness.Outcome("rtcmfilter complete-at-return")
+				return nil
+			}})
 	}
 	var many []byte
 	for i := 0; i < 12; i++ {
